@@ -125,7 +125,9 @@ pub fn nest_jar<A>(remap_option: bool, src: &impl Jar, nests: Nests<A>) -> Resul
 		let entry_attr = BasicFileAttributes::default();
 
 		let (name, class_node) = if remap_option {
-			let name = dukebox::remap::remap_jar_entry_name_java(&new_class_name, &remapper)?
+			// the entry of a class is named after the class, with `.class` at the end
+			let entry_name = JavaString::from(format!("{new_class_name}.class"));
+			let name = dukebox::remap::remap_jar_entry_name_java(&entry_name, &remapper)?
 				.into_string().unwrap(); // TODO: unwrap
 			let class_node = do_nested_class_attribute_class_visitor(&this_nests, new_class);
 			let class_node = dukebox::remap::remap_class(&remapper, class_node)?;
